@@ -559,7 +559,28 @@ def bracket_siblings(repo: Repo) -> RuleRun:
         )
     # both refuse brackets without a sign change before searching
     for fn in (a, b):
-        guards = [n for n in ast.walk(fn.node) if isinstance(n, ast.If) and isinstance(n.test, ast.Compare) and isinstance(n.test.left, ast.BinOp) and isinstance(n.test.left.op, ast.Mult) and isinstance(n.test.ops[0], (ast.GtE, ast.Gt)) and any(isinstance(x, ast.Raise) for x in n.body)]
+        def sign_product_guard(n: ast.If) -> bool:
+            """a raising `if` whose test compares a product f(lo) * f(hi) with 0 so that a non-negative product is refused -
+            written either way round (p >= 0, 0 <= p, not p < 0, ...)"""
+            if not any(isinstance(x, ast.Raise) for x in n.body):
+                return False
+            t, neg = n.test, False
+            while isinstance(t, ast.UnaryOp) and isinstance(t.op, ast.Not):
+                t, neg = t.operand, not neg
+            if not (isinstance(t, ast.Compare) and len(t.ops) == 1):
+                return False
+            left, right, op = t.left, t.comparators[0], t.ops[0]
+            is_prod = lambda e: isinstance(e, ast.BinOp) and isinstance(e.op, ast.Mult)  # noqa: E731
+            is_zero = lambda e: isinstance(e, ast.Constant) and e.value == 0  # noqa: E731
+            if is_prod(left) and is_zero(right):
+                refuses_nonneg = isinstance(op, (ast.GtE, ast.Gt))
+            elif is_zero(left) and is_prod(right):
+                refuses_nonneg = isinstance(op, (ast.LtE, ast.Lt))
+            else:
+                return False
+            return refuses_nonneg != neg
+
+        guards = [n for n in ast.walk(fn.node) if isinstance(n, ast.If) and sign_product_guard(n)]
         r.check(len(guards) == 1, fn, "sign change required before the root search", f"{fn.name} no longer rejects a bracket without a sign change (f(lo) * f(hi) >= 0) before brentq", fn.node, key="sign-test")
     return r
 
